@@ -1,13 +1,21 @@
-"""Structure of the main loop of Solver.solve, extracted once and shared by C02, C08, C12, C15."""
+"""Structure of the main loop of Solver.solve, extracted once and shared by C02, C08, C12, C15, C16, C18.
+
+Variables are identified by their ROLE (what they are passed to), never by their spelling, so renaming a local does not
+move a rule:  the carried iterate is the iterate argument of _compute_step, the iteration counter is the second argument of
+_check_terminate, the inverse step size is the variable under `1.0 / .` in the dt argument, the acceptance counter is what
+SolverResult receives as num_accepted_steps, the path lists are the receivers of the two in-loop `.append` calls that
+record `<candidate>.z` and `<list>[-1] + dt`.
+"""
 from __future__ import annotations
 
 import ast
+import re
 from typing import Dict, List, Optional
 
 from ..loopflow import Path, block_paths, count_in_path, first_index
 from ..model import AnalysisError, FuncInfo, Program, dotted, own_nodes, unparse
-from ..symex import StmtInfo, facts_for
-from .common import U, bind_args, short
+from ..symex import StmtInfo, facts_for, phi_alternatives
+from .common import U, bind_args, const_value, kwarg, short
 
 SOLVE = "pygradflow.solver.Solver.solve"
 
@@ -18,6 +26,11 @@ def is_method_call(n: ast.AST, name: str) -> bool:
 
 def is_aug(n: ast.AST, name: str) -> bool:
     return isinstance(n, ast.AugAssign) and isinstance(n.target, ast.Name) and n.target.id == name
+
+
+def loop_name(text: str) -> Optional[str]:
+    m = re.match(r"__loop__\('([A-Za-z_][A-Za-z_0-9\.]*)', \d+\)", text)
+    return m.group(1) if m else None
 
 
 class SolveLoop:
@@ -35,9 +48,41 @@ class SolveLoop:
         self.paths: List[Path] = block_paths(self.body)
         self.step_calls = [n for n in ast.walk(self.loop) if is_method_call(n, "_compute_step")]
         self.term_calls = [n for n in ast.walk(self.loop) if is_method_call(n, "_check_terminate")]
-        self.cb_calls = [n for n in ast.walk(self.loop) if isinstance(n, ast.Call) and U(n.func) == "self.callbacks"]
+        self.pre_term = None  # form 3: `status = check(); while status is None: ...; status = check()`
         self.compute_step = prog.func("pygradflow.solver.Solver._compute_step")
         self.check_terminate = prog.func("pygradflow.solver.Solver._check_terminate")
+        self._names: Optional[Dict[str, Optional[str]]] = None
+
+    # -- loop head ---------------------------------------------------------------------
+    def head(self):
+        """('while-true' | 'walrus', termination call, name of the status variable, statement holding the test) or raises."""
+        if len(self.term_calls) != 1:
+            raise AnalysisError(f"Solver.solve: expected one _check_terminate call in the main loop, found {len(self.term_calls)}")
+        call = self.term_calls[0]
+        t = self.loop.test
+        # form 3: test before the loop and again as the last statement of the body
+        if isinstance(t, ast.Compare) and len(t.ops) == 1 and isinstance(t.ops[0], ast.Is) and isinstance(t.left, ast.Name) and isinstance(t.comparators[0], ast.Constant) \
+                and t.comparators[0].value is None:
+            last = self.body[-1]
+            prev = None
+            for s in self.ff.order:
+                if s.index < self.loop_si.index and not s.loops:
+                    prev = s
+            if isinstance(last, ast.Assign) and last.value is call and U(last.targets[0]) == t.left.id and prev is not None and isinstance(prev.stmt, ast.Assign) \
+                    and is_method_call(prev.stmt.value, "_check_terminate") and U(prev.stmt.targets[0]) == t.left.id \
+                    and [U(a) for a in prev.stmt.value.args] == [U(a) for a in call.args] and prev.tries == self.loop_si.tries:
+                self.pre_term = prev
+                return "pre-tail", call, t.left.id, last
+        if isinstance(t, ast.Constant) and t.value is True:
+            first = self.body[0]
+            if isinstance(first, ast.Assign) and first.value is call and len(first.targets) == 1 and isinstance(first.targets[0], ast.Name):
+                return "while-true", call, first.targets[0].id, first
+            return "while-true", call, None, first
+        if isinstance(t, ast.Compare) and len(t.ops) == 1 and isinstance(t.ops[0], ast.Is) and isinstance(t.comparators[0], ast.Constant) and t.comparators[0].value is None:
+            l = t.left
+            if isinstance(l, ast.NamedExpr) and l.value is call and isinstance(l.target, ast.Name):
+                return "walrus", call, l.target.id, self.loop
+        return "other", call, None, self.loop
 
     # -- convenience -------------------------------------------------------------
     def si(self, node: ast.AST) -> StmtInfo:
@@ -53,8 +98,13 @@ class SolveLoop:
         return [p for p in self.paths if p.end in ("fall", "continue")]
 
     def loop_base_facts(self) -> List:
-        """facts that hold at the first statement of the loop body."""
         return list(self.ff.at(self.body[0]).facts)
+
+    def completed_iteration_facts(self) -> List:
+        """facts that hold at the counter increment = on every completed iteration."""
+        n = self.names()["iteration"]
+        incs = [q for q in self.ff.order if self.in_loop(q) and n and is_aug(q.stmt, n)]
+        return list(incs[-1].facts) if incs else self.loop_base_facts()
 
     def step_args(self) -> Dict[str, ast.AST]:
         if len(self.step_calls) != 1:
@@ -65,8 +115,67 @@ class SolveLoop:
         si = self.si(self.step_calls[0])
         return {k: self.ff.resolved(si.stmt, v) for k, v in b.items()}
 
-    def stores_in_loop(self, name: str) -> List[StmtInfo]:
+    def term_args(self) -> Dict[str, ast.AST]:
+        kind, call, status, holder = self.head()
+        b = bind_args(self.check_terminate, call)
+        if b is None:
+            raise AnalysisError("cannot bind the arguments of _check_terminate")
+        if kind == "pre-tail":
+            # at the head of an iteration the test has just been made on the carried variables themselves
+            env = self.ff.at(self.body[0]).env
+        else:
+            env = self.ff.at(self.body[0]).env if kind != "while-true" else self.ff.at(holder).env
+        from ..symex import resolve
+        return {k: resolve(v, env) for k, v in b.items()}
+
+    def names(self) -> Dict[str, Optional[str]]:
+        if self._names is not None:
+            return self._names
+        ff = self.ff
+        out: Dict[str, Optional[str]] = {}
+        ps = [p for p in self.compute_step.params if p != "self"]
+        sa = self.step_args()
+        out["iterate"] = loop_name(U(sa[ps[1]]))
+        dt = sa[ps[3]]
+        out["lamb"] = loop_name(U(dt.right)) if isinstance(dt, ast.BinOp) and isinstance(dt.op, ast.Div) else None
+        tps = [p for p in self.check_terminate.params if p != "self"]
+        ta = self.term_args()
+        out["iteration"] = loop_name(U(ta[tps[1]]))
+        out["status"] = self.head()[2]
+        res = [n for n in own_nodes(self.fi.node) if isinstance(n, ast.Call) and dotted(n.func) == "SolverResult"]
+        out["accepted"] = None
+        if len(res) == 1:
+            si = ff.stmt_of(res[0])
+            v = kwarg(res[0], "num_accepted_steps")
+            if v is not None:
+                out["accepted"] = loop_name(U(ff.resolved(si.stmt, v)))
+        # path lists
+        out["path"] = out["times"] = None
+        for s in ff.order:
+            st = s.stmt
+            if self.in_loop(s) and isinstance(st, ast.Expr) and is_method_call(st.value, "append") and isinstance(st.value.func.value, ast.Name) and len(st.value.args) == 1:
+                a = st.value.args[0]
+                recv = st.value.func.value.id
+                if U(ff.resolved(st, a)).endswith(".z"):
+                    out["path"] = recv
+                elif isinstance(a, ast.BinOp) and isinstance(a.op, ast.Add) and f"{recv}[-1]" in (U(a.left), U(a.right)):
+                    out["times"] = recv
+        # accumulated path length: the numerator of the distance factor
+        out["path_dist"] = None
+        if len(res) == 1:
+            si = ff.stmt_of(res[0])
+            v = kwarg(res[0], "dist_factor")
+            if v is not None:
+                for alt in phi_alternatives(ff.resolved(si.stmt, v)):
+                    if isinstance(alt, ast.BinOp) and isinstance(alt.op, ast.Div):
+                        out["path_dist"] = loop_name(U(alt.left))
+        self._names = out
+        return out
+
+    def stores_in_loop(self, name: Optional[str]) -> List[StmtInfo]:
         out = []
+        if not name:
+            return out
         for s in self.ff.order:
             if not self.in_loop(s):
                 continue
@@ -80,8 +189,10 @@ class SolveLoop:
                         out.append(s)
         return out
 
-    def last_def_before_loop(self, name: str) -> Optional[StmtInfo]:
+    def last_def_before_loop(self, name: Optional[str]) -> Optional[StmtInfo]:
         best = None
+        if not name:
+            return None
         for s in self.ff.order:
             if s.index >= self.loop_si.index:
                 break
@@ -92,9 +203,10 @@ class SolveLoop:
                     best = s
         return best
 
-    def post_veto_fact(self, si: StmtInfo) -> bool:
-        """si is guarded by the acceptance flag after the penalty policy's veto."""
-        from ..symex import phi_alternatives
+    def accept_kinds(self, si: StmtInfo):
+        """which acceptance verdicts guard the statement: {'controller', 'penalty'} (resolved through phi nodes)."""
+        kinds_all = set()
+        post_veto = False
         for f in si.facts:
             if f[0] != "truthy":
                 continue
@@ -111,12 +223,17 @@ class SolveLoop:
                     kinds.add("controller")
                 else:
                     kinds.add("other")
-            if "penalty" in kinds and "other" not in kinds:
-                return True
-        return False
+            if "other" in kinds:
+                continue
+            kinds_all |= kinds
+            if "penalty" in kinds:
+                post_veto = True
+        return kinds_all, post_veto
 
-    def accept_fact_texts(self, si: StmtInfo) -> List[str]:
-        return [f[1] for f in si.facts if f[0] == "truthy" and (".accept" in f[1])]
+    def post_veto_fact(self, si: StmtInfo) -> bool:
+        """si is guarded by the acceptance flag after the penalty policy's veto (the policy is only consulted for steps the
+        controller accepted, so its verdict implies the controller's)."""
+        return self.accept_kinds(si)[1]
 
 
 _CACHE = {}
